@@ -260,6 +260,35 @@ func c12StructArgs(ctx *Ctx, fn c11Fn) []cty.Value {
 			args[1], args[2] = cty.NumberIntVal(int64(a)), cty.NumberIntVal(int64(r.Intn(l+1-a)))
 		}
 	case "ContainsFunc", "SetHasElementFunc":
+		// a quarter of the time the haystack is a collection of COMPOUND members (objects, tuples, lists),
+		// so that a weakening INSIDE the needle is possible (a seeded change answered a definite False for
+		// such a needle through the set's hash lookup and was first found only by the intensified search)
+		if nargs == 2 && r.Intn(4) == 0 {
+			k := 2 + r.Intn(2)
+			ms := make([]cty.Value, k)
+			shape := r.Intn(3)
+			for i := range ms {
+				a, b := cty.NumberIntVal(int64(r.Intn(4))), cty.StringVal(c12Keys[r.Intn(3)])
+				switch shape {
+				case 0:
+					ms[i] = cty.ObjectVal(map[string]cty.Value{"age": a, "name": b})
+				case 1:
+					ms[i] = cty.TupleVal([]cty.Value{a, b})
+				default:
+					ms[i] = cty.ListVal([]cty.Value{a, cty.NumberIntVal(int64(r.Intn(4)))})
+				}
+			}
+			switch h := r.Intn(3); {
+			case h == 0 || fn.name == "SetHasElementFunc":
+				args[0] = cty.SetVal(ms)
+			case h == 1:
+				args[0] = cty.ListVal(ms)
+			default:
+				args[0] = cty.TupleVal(ms)
+			}
+			args[1] = ms[r.Intn(k)]
+			return args
+		}
 		// half of the time ask for a member that is there
 		if nargs == 2 && r.Intn(2) == 0 {
 			if _, vs := c12Members(args[0]); len(vs) > 0 {
